@@ -1491,13 +1491,19 @@ def space_tree_inputs(rnd, tier, ty, huff):
         for mx in [c for c in ((1 << 54) - 1, (1 << 56) - 1) if c <= T] + rnd.sample([c for c in cands if c <= T], 2 if tier == "quick" else 6):
             alph = sorted(set([0, 1, mx, mx // 2, mx // 3, 77]))
             out.append(("wide_m%d" % mx, Seqn.from_values(rand_seq(rnd, 20000, alph) + [mx])))
+            # and long enough for one extra level (a few percent) to exceed the per-level constants
+            nbig = 400000 if tier == "quick" else 1200000
+            out.append(("wide_big_m%d" % mx, runs_profile(rnd, alph, [nbig // len(alph)] * len(alph))))
     if huff and tmax(ty) >= (1 << 20):
         # symbol values above 2^16 and 2^17 with very different frequencies (the code length of a
         # symbol must not depend on its numeric value); the code table is indexed by symbol value
-        base = rnd.choice([1 << 16, (1 << 17) + 5, 200000])
-        alph = [3, 9, base, base + 1, base + 70000, 1000, 50000, base + 12345]
-        rnd.shuffle(alph)
-        out.append(("highsyms", runs_profile(rnd, alph, [max(1, int(120000 * 0.45 ** i)) for i in range(len(alph))])))
+        hi = [(1 << 20) + 7, (1 << 18) + 1000, (1 << 17) + 5, 70000 + rnd.randrange(1000), 1 << 16, 1000, 9, 3]
+        w = [max(1, int(120000 * 0.45 ** i)) for i in range(len(hi))]
+        out.append(("highsyms_desc", runs_profile(rnd, hi, w)))
+        out.append(("highsyms_asc", runs_profile(rnd, hi[::-1], w)))
+        mid = list(hi)
+        rnd.shuffle(mid)
+        out.append(("highsyms_mix", runs_profile(rnd, mid, w)))
     for n in ([1000, 20000] if tier == "quick" else [10, 1000, 20000, 100000]):
         for mx in rnd.sample([1, 3, 4, 15, 16, 255, 256, 1000, 65535], 3 if tier == "quick" else 6):
             mx = min(mx, T)
